@@ -140,17 +140,33 @@ func checkHasPath(rep *lib.Report, shape string) {
 			}
 			pairs = append(pairs, [2]int{0, nb}, [2]int{0, nb - 1}, [2]int{nb - 1, 0})
 		}
-		mem := map[*ssa.BasicBlock]map[*ssa.BasicBlock]bool{}
-		for _, p := range pairs {
-			b1 := f.Blocks[p[0]]
-			b2 := foreign
-			if p[1] < nb {
-				b2 = f.Blocks[p[1]]
+		// the real function runs in-process: watchdog per function (a diverging search cannot be stopped, but it
+		// can be reported; the driver exits at the end of main)
+		doneCh := make(chan []hpQuery, 1)
+		go func() {
+			var qs []hpQuery
+			mem := map[*ssa.BasicBlock]map[*ssa.BasicBlock]bool{}
+			for _, p := range pairs {
+				b1 := f.Blocks[p[0]]
+				b2 := foreign
+				if p[1] < nb {
+					b2 = f.Blocks[p[1]]
+				}
+				q := hpQuery{fn: f, src: p[0], tgt: p[1]}
+				q.real = lang.HasPathTo(b1, b2, nil)
+				q.realMem = lang.HasPathTo(b1, b2, mem)
+				qs = append(qs, q)
 			}
-			q := hpQuery{fn: f, src: p[0], tgt: p[1]}
-			q.real = lang.HasPathTo(b1, b2, nil)
-			q.realMem = lang.HasPathTo(b1, b2, mem)
-			queries = append(queries, q)
+			doneCh <- qs
+		}()
+		select {
+		case qs := <-doneCh:
+			queries = append(queries, qs...)
+		case <-time.After(90 * time.Second):
+			rep.Fail("haspath-diverges", fmt.Sprintf("lang.HasPathTo did not answer %d queries on a %d-block CFG within 90 s (theorems hasPathCur_terminates / hasPathFix_linear bound the models)", len(pairs), nb), []byte("function "+f.Name()+"\nsuccessors by block:\n"+strings.Join(succsText(f), "\n")+"\n"), false)
+			return
+		}
+		for _, p := range pairs {
 			fmt.Fprintf(&in, "hp %d %d 400000\n", p[0], p[1])
 			nLines++
 		}
@@ -484,7 +500,17 @@ func checkTraces(rep *lib.Report) {
 	for _, limit := range []int{-1, 1, 2, 3, 5} {
 		st.Config.MaxEntrypointContextSize = limit
 		for i, n := range nodes {
-			stacks := dataflow.GetAllCallingContexts(st, n)
+			// in-process call of code whose termination is the question: watchdog (a diverging goroutine cannot be
+			// stopped, but the driver can report and go on; it exits at the end of main)
+			resCh := make(chan []*dataflow.CallStack, 1)
+			go func() { resCh <- dataflow.GetAllCallingContexts(st, n) }()
+			var stacks []*dataflow.CallStack
+			select {
+			case stacks = <-resCh:
+			case <-time.After(60 * time.Second):
+				rep.Fail("ctx-diverges", fmt.Sprintf("GetAllCallingContexts(%s) with max-entrypoint-context-size=%d did not return within 60 s on an %d-call-node program (theorem ctx_terminates bounds the model by numNodup; the real loop no longer stops)", n.LongID(), limit, len(nodes)), []byte(traceProg), false)
+				return
+			}
 			var ss []string
 			for _, s := range stacks {
 				// a call stack (outermost first) -> the model's reversed stack (outermost call at the head)
